@@ -95,8 +95,8 @@ def perts(n):
 
 
 def lat_scales():
-    """(label, factor, exact?) : ten decades 1e-5..1e5 and the binary scales next to the negative decades."""
-    out = [("1e%d" % k, 10.0 ** k, k >= 0) for k in range(-5, 6)]
+    """(label, factor, exact?) : fourteen decades 1e-10..1e3 (widths well below and above 1e-7) and binary scales next to some negative decades."""
+    out = [("1e%d" % k, 10.0 ** k, k >= 0) for k in range(-10, 4)]
     out += [("2^%d" % round(k * math.log2(10)), 2.0 ** round(k * math.log2(10)), True) for k in range(-5, 0)]
     return out
 
